@@ -135,6 +135,44 @@ def run(ctx):
     unsafe_oct(ctx)
     key_confusion(ctx)
     gates_after_proper_use(ctx)
+    dir_key_sizes(ctx)
+
+
+def dir_key_sizes(ctx):
+    """`dir`: the shared key IS the content-encryption key, so it must have exactly the size the `enc` needs - for every enc,
+    keys of every size from one octet short of the smallest to the largest CEK size plus one octet are offered for
+    encryption (compact and flattened) and for decryption of a reference-built token: accepted iff the size is exact."""
+    from joserfc import jwe
+    from joserfc.jwk import OctKey
+    from harness import jweref as R
+    rng = ctx.rng
+    sizes = sorted({15, 16, 17, 24, 31, 32, 33, 40, 48, 56, 64, 65, 72, 96, 128})
+    for enc in R.ENCS:
+        need = R.cek_len(enc)
+        right = rng.randbytes(need)
+        tok = R.encrypt("dir", enc, right, b"for the right size")
+        for n in sizes:
+            raw = (right * 9)[:n] if rng.random() < 0.5 else rng.randbytes(n)      # longer keys that START with the right key, and unrelated ones
+            key = OctKey.import_key(raw)
+            for op in ("encrypt-compact", "encrypt-flat", "decrypt"):
+                try:
+                    if op == "encrypt-compact":
+                        jwe.encrypt_compact({"alg": "dir", "enc": enc}, b"x", key, algorithms=E.ALL_NAMES)
+                    elif op == "encrypt-flat":
+                        o = jwe.FlattenedJSONEncryption({"alg": "dir", "enc": enc}, b"x")
+                        o.add_recipient(None, key)
+                        jwe.encrypt_json(o, None, algorithms=E.ALL_NAMES)
+                    else:
+                        jwe.decrypt_compact(tok, key, algorithms=E.ALL_NAMES)
+                    out = "ok"
+                except Exception as e:  # noqa: BLE001
+                    out = err_name(e)
+                ctx.count("dir-key-size", (enc, n, op), True, f"{op}:{'exact' if n == need else 'other'}:{out if out == 'ok' else 'refused'}")
+                if n != need and out == "ok":
+                    ctx.report(f"dir {op} with enc {enc} (CEK of {need * 8} bits) succeeded with a key of {n * 8} bits", {"enc": enc, "key_octets": n, "operation": op,
+                               "key_starts_with_right_key": raw[:need] == right}, f"dir-size:{op}:unsuitable-used")
+                if n == need and op.startswith("encrypt") and out != "ok":
+                    ctx.report(f"dir {op} with enc {enc} refused a key of exactly {n * 8} bits: {out}", {"enc": enc, "operation": op}, f"dir-size:{op}:suitable-refused")
 
 
 def gates_after_proper_use(ctx):
